@@ -619,7 +619,7 @@ class Check:
                 small = i
                 if exe and len(i) > 3:
                     try:
-                        small = self.shrink(exe, i, lambda x: (not x[4][1]) and not (x[4][2] and x[4][2] in kfs))
+                        small = self.shrink(exe, i, lambda x: (not x[4][1]) and not (x[4][2] and x[4][2] in kfs) and x[4][3] != '[-1 0]' and x[4][0] == r[0])
                     except SystemExit:
                         raise
                     except Exception as ex:  # shrinking is best effort
@@ -639,6 +639,11 @@ class Check:
                 print('VIOLATION property=%s replay=%s no-failing-input-found' % (self.prop, replay_path))
             for pr in self.problems:
                 log('  broken: ' + pr)
+        if not violations:
+            try:
+                os.remove(os.path.join(ROOT, 'replay', '%s-%d.json' % (self.prop, self.seed)))
+            except OSError:
+                pass
         known = ev['known'] if ev else {}
         for k in sorted(known):
             print('KNOWN-FINDING: property=%s id=%d %s' % (self.prop, k, kfs[k]))
